@@ -303,6 +303,10 @@ pub struct Sig {
     pub k1: bool, // a clear detached the chain between a pusher's tail load and its slot claim
     pub k2: bool, // a reader loaded tail while a pusher was between its tail CAS and the link of `next`
     pub k3: bool, // is_empty evaluated while another pusher was between claim and publish
+    /// EXACT count of K1 steps = the Lean predicate `k1Step` (Model/BucketGhost.lean; theorems `C05.conservation_except_K1`,
+    /// `C05.K1_has_detach_between`): slot claims that succeed on a block a clear has detached since the pusher obtained it.
+    /// `k1` above is the older, coarser trace signature (any clear's tail load between a pusher's tail load and its claim).
+    pub k1_exact: usize,
 }
 
 pub fn signatures(o: &Outcome) -> Sig {
@@ -317,6 +321,29 @@ pub fn signatures_of_trace(tr: &[(usize, &'static str)]) -> Sig {
     let mut in_window: Vec<bool> = vec![false; n_threads]; // between cas_new grant and link grant
     let mut in_flight: Vec<bool> = vec![false; n_threads]; // between claim grant and publish grant
     let mut clears: Vec<usize> = vec![];
+    // ---- exact K1. A pusher obtains the block of its claim in its PREVIOUS grant (tail load with a non-null tail, the
+    // first-block CAS, or the won hand-over CAS: the only steps that lead to the claim point; Lean:
+    // `C05.pusher_claims_on_the_tail_it_saw`). A clear detaches the chain in the grant of `bkt.clear.load_tail` (load and
+    // CAS have no yield point between them, so the CAS succeeds) iff the tail was non-null, i.e. iff that thread's next
+    // point is `bkt.clear.quiesced`. The claim really takes a slot iff the pusher's next point is the publish step.
+    let next_of = |gi: usize, t: usize| tr[gi + 1..].iter().find(|(t2, _)| *t2 == t).map(|x| x.1);
+    let detaches: Vec<usize> = tr
+        .iter()
+        .enumerate()
+        .filter(|(gi, (t, id))| *id == "bkt.clear.load_tail" && next_of(*gi, *t) == Some("bkt.clear.quiesced"))
+        .map(|x| x.0)
+        .collect();
+    if !detaches.is_empty() {
+        for (gi, (t, id)) in tr.iter().enumerate() {
+            if *id == "blk.push.claim" && next_of(gi, *t) == Some("blk.push.publish") {
+                if let Some(p) = tr[..gi].iter().rposition(|(t2, _)| t2 == t) {
+                    if detaches.iter().any(|c| *c > p && *c < gi) {
+                        sig.k1_exact += 1;
+                    }
+                }
+            }
+        }
+    }
     for (gi, (t, id)) in tr.iter().enumerate() {
         match *id {
             "bkt.push.load_tail" => loaded_tail_at[*t] = Some(gi),
@@ -372,7 +399,7 @@ pub fn oracle(out: &mut Out, progs: &[Vec<Call>], o: &Outcome) {
     let sig = signatures(o);
     let tag = |s: &Sig| -> String {
         let mut v = vec![];
-        if s.k1 {
+        if s.k1_exact > 0 {
             v.push("K1:straggler-push-on-detached-block");
         }
         if s.k2 {
@@ -617,6 +644,15 @@ fn gen_progs(r: &mut Rng) -> (Vec<Vec<Call>>, Vec<usize>) {
     (progs, sch)
 }
 
+/// `bucket k1`: the model evaluates the K1 predicate (`k1Step`, counted by `k1Fold`) on the schedule that was executed;
+/// the implementation side answers with the count read off its own trace (`Sig::k1_exact`)
+fn k1_op(out: &mut Out, progs: &[Vec<Call>], taken: &[usize], sig: &Sig) {
+    out.op(
+        &format!("bucket k1 {} {} {}", B, list(progs.iter().map(|p| prog_tok(p))), sched::sched_tok(taken)),
+        &format!("k1={}", sig.k1_exact),
+    );
+}
+
 fn one(out: &mut Out, progs: &[Vec<Call>], sch: &[usize]) {
     let o = execute(progs, sch);
     let taken: Vec<usize> = o.run.trace.iter().map(|(t, _)| *t).collect();
@@ -625,8 +661,18 @@ fn one(out: &mut Out, progs: &[Vec<Call>], sch: &[usize]) {
         &answer(&o),
     );
     let sig = signatures(&o);
+    // the K1 predicate of the Lean development, evaluated by the model on this very schedule, against the count read off
+    // the implementation's trace: ties the trace signature that downgrades a loss to the known finding K-C05-K1 to the
+    // hypothesis of `C05.conservation_except_K1`
+    k1_op(out, progs, &taken, &sig);
     if sig.k1 {
         out.count("sig.K1");
+    }
+    if sig.k1_exact > 0 {
+        out.count("sig.K1 exact (Lean k1Step)");
+    }
+    if sig.k1 && sig.k1_exact == 0 {
+        out.count("sig.K1 coarse only (a clear's tail load between a pusher's load and claim, but no claim on a detached block)");
     }
     if sig.k2 {
         out.count("sig.K2");
@@ -933,6 +979,19 @@ pub fn run(cfg: &Cfg, out: &mut Out) {
                     &format!("bucket run {} {} {}", B, list(progs.iter().map(|p| prog_tok(p))), sched::sched_tok(&taken)),
                     &answer(&o),
                 );
+                // K1 predicate of the model vs the trace: every run where the coarse signature and the exact count disagree
+                // (coarse only), and every eighth of the rest
+                if progs.iter().flatten().any(|c| matches!(c, Call::Clear)) {
+                    let sig = signatures(&o);
+                    if (sig.k1 && sig.k1_exact == 0) || runs % 8 == 0 {
+                        k1_op(out, &progs, &taken, &sig);
+                    }
+                    if sig.k1_exact > 0 {
+                        out.count("exhaustive: runs with a K1 step (Lean k1Step)");
+                    } else if sig.k1 {
+                        out.count("exhaustive: runs with the coarse K1 signature only");
+                    }
+                }
                 oracle(out, &progs, &o);
                 // the prefilled configurations cost ~200 grants per run: cap them lower
                 if runs >= (if fixed_prefix.is_empty() { 30000 } else { 2500 }) {
